@@ -418,6 +418,21 @@ func ite(c, a, b string) string {
 	if a == b {
 		return a
 	}
+	// boolean short-circuit shapes
+	switch {
+	case b == "false" && a == "true":
+		return c
+	case b == "false":
+		return and(c, a)
+	case a == "true":
+		return or(c, b)
+	case a == "false" && b == "true":
+		return not(c)
+	case a == "false":
+		return and(not(c), b)
+	case b == "true":
+		return or(not(c), a)
+	}
 	return "(ite " + c + " " + a + " " + b + ")"
 }
 
@@ -426,4 +441,21 @@ func eq(a, b string) string {
 		return "true"
 	}
 	return "(= " + a + " " + b + ")"
+}
+
+
+// atFn returns the element-access function for slices of element type t:
+// (at e s i) = e[arr(s)][off(s)+i], introduced by a definitional axiom whose trigger is the
+// application itself, so that quantified specifications over s[k] have a usable pattern.
+func (s *Sorts) atFn(t types.Type) string {
+	key := s.typeKey(t)
+	name := q("at:" + key)
+	if !s.ufs[name] {
+		s.ufs[name] = true
+		es := s.sortOf(t)
+		s.decls = append(s.decls,
+			fmt.Sprintf("(declare-fun %s ((Array Int %s) Slice Int) %s)", name, es, es),
+			fmt.Sprintf("(assert (forall ((e (Array Int %s)) (s Slice) (i Int)) (! (= (%s e s i) (select e (+ (s-off s) i))) :pattern ((%s e s i)))))", es, name, name))
+	}
+	return name
 }
